@@ -25,7 +25,7 @@ pub fn data_cmd(r: &mut Rng, uniq: &mut u64, deterministic: bool) -> Vec<B> {
             7 => vec![b("EXISTS"), b(*r.pick(&["k1", "l1", "s1", "h1", "z1", "n1", "x1"]))],
             8 => vec![b("EXPIRE"), k(r), b("1000")],
             9 => vec![b("TTL"), k(r)],
-            10 => vec![b("RENAME"), b("k1"), b("k2")],
+            10 => vec![b(*r.pick(&["RENAME", "RENAMENX", "RENAMENX"])), k(r), k(r)],
             11 => vec![b("TYPE"), b(*r.pick(&["k1", "l1", "s1", "h1", "z1", "x1"]))],
             12 | 13 => vec![b(*r.pick(&["LPUSH", "RPUSH"])), l(r), v(*uniq)],
             14 => vec![b(*r.pick(&["LPOP", "RPOP"])), l(r)],
